@@ -169,8 +169,10 @@ pub struct GapOpts {
     pub seed: u64,
     /// keep fraction num/denom of single-gap elements
     pub single: (u64, u64),
-    /// keep fraction num/denom of pair elements (0 disables)
+    /// keep fraction num/denom of pair elements (0 disables), chosen by the seed among `pair_fixed`
     pub pair: (u64, u64),
+    /// the fixed, seed-independent slice of all pairs that belongs to the universe
+    pub pair_fixed: (u64, u64),
     pub seed_tags: Vec<String>,
     pub trivia_tags: Vec<String>,
     pub ctx_filter: Vec<String>,
@@ -191,8 +193,18 @@ pub fn gap(defs: &Defs, o: &GapOpts) -> (Vec<Elem>, BTreeMap<String, u64>) {
         if !tag_match(&o.seed_tags, &s.tags) {
             continue;
         }
+        // a tag `only:<ctx>+<ctx>` restricts a seed to the named embedding contexts
+        let only: Vec<String> = s
+            .tags
+            .iter()
+            .filter_map(|t| t.strip_prefix("only:"))
+            .flat_map(|t| t.split('+').map(|x| x.to_string()))
+            .collect();
         for c in defs.ctxs.iter().filter(|c| c.mode == s.mode) {
             if !o.ctx_filter.is_empty() && !o.ctx_filter.contains(&c.name) {
+                continue;
+            }
+            if !only.is_empty() && !only.contains(&c.name) {
                 continue;
             }
             let hs = c.tpl.find("@@").expect("hole");
@@ -242,7 +254,9 @@ pub fn gap(defs: &Defs, o: &GapOpts) -> (Vec<Elem>, BTreeMap<String, u64>) {
                                     "gap2:{}:{}:g{}:{}:g{}:{}",
                                     s.id, c.name, gi, t1.id, gj, t2.id
                                 );
-                                if !pick(o.seed, &id, o.pair.0, o.pair.1) {
+                                if !pick(0x5eed_f1ed, &id, o.pair_fixed.0, o.pair_fixed.1)
+                                    || !pick(o.seed, &id, o.pair.0, o.pair.1)
+                                {
                                     continue;
                                 }
                                 // insert the later one first so offsets stay valid
